@@ -74,6 +74,16 @@ class Task(object):
             fr = fr.f_back
         return site
 
+    def stack(self, n=6):
+        fr = sys._current_frames().get(self.thread.ident)
+        out = []
+        while fr is not None and len(out) < n:
+            mod = fr.f_globals.get("__name__", "")
+            if mod.startswith("nfc."):
+                out.append("%s:%s:%d" % (mod.replace("nfc.", ""), fr.f_code.co_name, fr.f_lineno))
+            fr = fr.f_back
+        return " < ".join(out)
+
     def where_fn(self):
         w = self.where()
         return w.rsplit(":", 1)[0]
@@ -179,6 +189,7 @@ class Kernel(object):
         t.state = BLOCKED
         t.wait_on = what
         t.wake_reason = None
+        t.blocked_since = self.now()
         if timeout is not None:
             t.timer_token += 1
             self._seq += 1
